@@ -91,11 +91,11 @@ theorem tdFull_isTypeDecl (x : String) (co : Option Coord) (q : List Val) (t : V
     (tdFull x co q t).isCls .TypeDecl = true := rfl
 
 theorem decl_size (dco : Option Coord) (a b c d e ty f g : Val) (ms : List M) (td : Val) (h : ty = chainVal ms td) :
-    ms.length + 2 ≤ (mk .Decl dco [a, b, c, d, e, ty, f, g]).size := by
+    ms.length + 2 ≤ (mk .Decl dco [a, b, c, d, e, ty, f, g]).tlen := by
   subst h
   have := chain_size ms td
-  have h1 : 1 ≤ td.size := by cases td <;> simp [Val.size]
-  simp only [mk, Val.size, Val.sizeL]
+  have h1 : 1 ≤ td.tlen := by cases td <;> simp [Val.tlen]
+  have h2 := Val.tlen_getType (mk .Decl dco [a, b, c, d, e, chainVal ms td, f, g]) (chainVal ms td) rfl
   omega
 
 /-- the specifier names, as `_parse_declaration_specifiers` stores them: one `IdentifierType` per keyword -/
@@ -147,7 +147,7 @@ theorem fixDeclNameType_ok (x : String) (dco tco : Option Coord) (q al st fn : L
   have hsz := decl_size dco .none (.list q) (.list al) (.list st) (.list fn) _ init .none ms (tdRaw x tco) rfl
   have hsz' := decl_size dco (.str x) (.list q) (.list al) (.list st) (.list fn) _ init .none ms (tdRaw x tco) rfl
   -- the innermost TypeDecl
-  have hinner : innerTypeDecl ((declPre dco q al st fn (chainVal ms (tdRaw x tco)) init).size + 1)
+  have hinner : innerTypeDecl ((declPre dco q al st fn (chainVal ms (tdRaw x tco)) init).tlen + 1)
       (declPre dco q al st fn (chainVal ms (tdRaw x tco)) init) = some (tdRaw x tco) := by
     have h1 : (declPre dco q al st fn (chainVal ms (tdRaw x tco)) init).isCls .TypeDecl = false := rfl
     have h2 : (declPre dco q al st fn (chainVal ms (tdRaw x tco)) init).getAttr "type" = some (chainVal ms (tdRaw x tco)) := rfl
@@ -157,13 +157,13 @@ theorem fixDeclNameType_ok (x : String) (dco tco : Option Coord) (q al st fn : L
   have hset : (declPre dco q al st fn (chainVal ms (tdRaw x tco)) init).setAttr "name" (.str x) =
       some (declPost x dco q al st fn (chainVal ms (tdRaw x tco)) init) := rfl
   have hq : (declPost x dco q al st fn (chainVal ms (tdRaw x tco)) init).getAttr "quals" = some (.list q) := rfl
-  have hF : ms.length < (declPre dco q al st fn (chainVal ms (tdRaw x tco)) init).size := by
+  have hF : ms.length < (declPre dco q al st fn (chainVal ms (tdRaw x tco)) init).tlen := by
     simp only [declPre]; omega
-  have hm1 : mapInnerTypeDecl ((declPre dco q al st fn (chainVal ms (tdRaw x tco)) init).size + 1)
+  have hm1 : mapInnerTypeDecl ((declPre dco q al st fn (chainVal ms (tdRaw x tco)) init).tlen + 1)
       (declPost x dco q al st fn (chainVal ms (tdRaw x tco)) init) (fun td => td.setAttr "quals" (.list q)) =
       some (declPost x dco q al st fn (chainVal ms (tdFull x tco q .none)) init) := by
     rw [declPost, mapInner_decl _ _ _ _ _ _ _ _ _ ms _ rfl _ hF]; rfl
-  have hm2 : ∀ t, mapInnerTypeDecl ((declPre dco q al st fn (chainVal ms (tdRaw x tco)) init).size + 1)
+  have hm2 : ∀ t, mapInnerTypeDecl ((declPre dco q al st fn (chainVal ms (tdRaw x tco)) init).tlen + 1)
       (declPost x dco q al st fn (chainVal ms (tdFull x tco q .none)) init) (fun td => td.setAttr "type" t) =
       some (declPost x dco q al st fn (chainVal ms (tdFull x tco q t)) init) := by
     intro t
@@ -187,19 +187,19 @@ theorem fixAtomicSpecifiers_noop (x : String) (dco tco ico : Option Coord) (q al
     (tdFull x tco q (identType ico names)) rfl
   have hty : (declPost x dco q al st fn (chainVal ms (tdFull x tco q (identType ico names))) init).getAttr "type" =
       some (chainVal ms (tdFull x tco q (identType ico names))) := rfl
-  have hpath : atomicPath ((declPost x dco q al st fn (chainVal ms (tdFull x tco q (identType ico names))) init).size + 1)
+  have hpath : atomicPath ((declPost x dco q al st fn (chainVal ms (tdFull x tco q (identType ico names))) init).tlen + 1)
       (chainVal ms (tdFull x tco q (identType ico names)))
       [declPost x dco q al st fn (chainVal ms (tdFull x tco q (identType ico names))) init] = none :=
     atomicPath_chain x tco ico q names ms _ _ (by simp only [declPost]; omega)
   have honce : fixAtomicOnce (declPost x dco q al st fn (chainVal ms (tdFull x tco q (identType ico names))) init) s =
       .ok (declPost x dco q al st fn (chainVal ms (tdFull x tco q (identType ico names))) init, false) s := by
     simp only [fixAtomicOnce, DeclSkel.bnd, hty, attrOrCrash_some, DeclSkel.pur, hpath]
-  have hloop : fixAtomicLoop ((declPost x dco q al st fn (chainVal ms (tdFull x tco q (identType ico names))) init).size + 1)
+  have hloop : fixAtomicLoop ((declPost x dco q al st fn (chainVal ms (tdFull x tco q (identType ico names))) init).tlen + 1)
       (declPost x dco q al st fn (chainVal ms (tdFull x tco q (identType ico names))) init) s =
       .ok (declPost x dco q al st fn (chainVal ms (tdFull x tco q (identType ico names))) init) s := by
     simp only [fixAtomicLoop, DeclSkel.bnd, honce, Bool.false_eq_true, ↓reduceIte, DeclSkel.pur]
   have h1 : (declPost x dco q al st fn (chainVal ms (tdFull x tco q (identType ico names))) init).isCls .TypeDecl = false := rfl
-  have hinner : innerTypeDecl ((declPost x dco q al st fn (chainVal ms (tdFull x tco q (identType ico names))) init).size + 1)
+  have hinner : innerTypeDecl ((declPost x dco q al st fn (chainVal ms (tdFull x tco q (identType ico names))) init).tlen + 1)
       (declPost x dco q al st fn (chainVal ms (tdFull x tco q (identType ico names))) init) =
       some (tdFull x tco q (identType ico names)) := by
     simp only [innerTypeDecl, h1, hty, Bool.false_eq_true, ↓reduceIte, Option.bind_some]
@@ -327,9 +327,9 @@ theorem buildDeclarations_ok (sp : DeclSpec) (p0 : String × Option Coord) (name
     show d0.raw.isNone = false
     cases h : d0.raw <;> simp_all [Val.isNode, Val.isNone]
   have hinst : isInstance d0.info.decl [.Enum, .Struct, .Union, .IdentifierType] = false := chain_notSpecNode _ _ _
-  have hinner : innerTypeDecl (d0.info.decl.size + 1) d0.info.decl = some (tdRaw d0.x d0.tco) := by
+  have hinner : innerTypeDecl (d0.info.decl.tlen + 1) d0.info.decl = some (tdRaw d0.x d0.tco) := by
     have := chain_size d0.ms (tdRaw d0.x d0.tco)
-    exact innerTypeDecl_chain d0.ms _ _ rfl (by show d0.ms.length < (chainVal d0.ms (tdRaw d0.x d0.tco)).size + 1; omega)
+    exact innerTypeDecl_chain d0.ms _ _ rfl (by show d0.ms.length < (chainVal d0.ms (tdRaw d0.x d0.tco)).tlen + 1; omega)
   have hdn : (tdRaw d0.x d0.tco).getAttr "declname" = some (.str d0.x) := rfl
   have hfirst : bdFirstFix sp ((d0 :: ds).map DI.info) d0.info s = .ok (sp, (d0 :: ds).map DI.info) s := by
     have hsn : (Val.str d0.x).isNone = false := rfl
@@ -374,9 +374,9 @@ theorem buildDeclarations_one_noreg (sp : DeclSpec) (p0 : String × Option Coord
     show d0.raw.isNone = false
     cases h : d0.raw <;> simp_all [Val.isNode, Val.isNone]
   have hinst : isInstance d0.info.decl [.Enum, .Struct, .Union, .IdentifierType] = false := chain_notSpecNode _ _ _
-  have hinner : innerTypeDecl (d0.info.decl.size + 1) d0.info.decl = some (tdRaw d0.x d0.tco) := by
+  have hinner : innerTypeDecl (d0.info.decl.tlen + 1) d0.info.decl = some (tdRaw d0.x d0.tco) := by
     have := chain_size d0.ms (tdRaw d0.x d0.tco)
-    exact innerTypeDecl_chain d0.ms _ _ rfl (by show d0.ms.length < (chainVal d0.ms (tdRaw d0.x d0.tco)).size + 1; omega)
+    exact innerTypeDecl_chain d0.ms _ _ rfl (by show d0.ms.length < (chainVal d0.ms (tdRaw d0.x d0.tco)).tlen + 1; omega)
   have hdn : (tdRaw d0.x d0.tco).getAttr "declname" = some (.str d0.x) := rfl
   have hfirst : bdFirstFix sp [d0.info] d0.info s = .ok (sp, [d0.info]) s := by
     have hsn : (Val.str d0.x).isNone = false := rfl
